@@ -289,15 +289,18 @@ Render(tree, sty) == AddNoise(EscVariants(RenderCode(tree, sty), sty.escv), sty.
 (* The characters of a line: leading white space, tokens, separators.      *)
 (* "s" is a blank, "t" a tab.                                               *)
 Rep(c, n) == [i \in 1..n |-> c]
+BlanksTab(i) == Rep("s", 7 - (((i + 6) * 3) % 7)) \o <<"t">>
 Lead(ind, tabs, i) ==
   CASE tabs = "spaces" -> Rep("s", ind)
     [] tabs = "tabs"   -> Rep("t", ind \div 8) \o Rep("s", ind % 8)
-    [] tabs = "mixed"  -> IF ind >= 8 THEN <<"s", "s", "s", "t">> \o Rep("t", (ind \div 8) - 1) \o Rep("s", ind % 8)
+    \* blanks then a tab: any number of blanks below 8 in front of a tab reaches the next tab stop; the number
+    \* changes from line to line (1..7, so also the boundary case of 7 blanks where the tab advances one column)
+    [] tabs = "mixed"  -> IF ind >= 8 THEN BlanksTab(i) \o Rep("t", (ind \div 8) - 1) \o Rep("s", ind % 8)
                           ELSE Rep("s", ind)
     [] tabs = "alt"    -> \* line by line a different way to reach the same column
                           IF i % 3 = 0 THEN Rep("s", ind)
                           ELSE IF i % 3 = 1 \/ ind < 8 THEN Rep("t", ind \div 8) \o Rep("s", ind % 8)
-                          ELSE <<"s", "s", "s", "t">> \o Rep("t", (ind \div 8) - 1) \o Rep("s", ind % 8)
+                          ELSE BlanksTab(i) \o Rep("t", (ind \div 8) - 1) \o Rep("s", ind % 8)
 (* include.c:inclCalcIndentLevel on the codes *)
 IndentLevel(lead) == FoldLeft(LAMBDA i, c : IF c = "s" THEN i + 1 ELSE ((i \div 8) + 1) * 8, 0, lead)
 
